@@ -10,8 +10,8 @@ enum Op { LEAF, AND_, OR_, NOT_, IMPLY_, XOR_, EQ_, NEQ_, FORALL_, EXISTS_ };
 static const char* OPNAME[] = {"leaf", "&&", "||", "!", "imply", "xor", "==", "!=", "forall", "exists"};
 static const Op BIN[] = {AND_, OR_, IMPLY_, XOR_, EQ_, NEQ_};
 static const Op UN[] = {NOT_, FORALL_, EXISTS_};
-struct Leaf { const char* text; bool clock; };
-static const Leaf LEAVES[] = {{"i < 1", false}, {"x < 5", true}, {"2 <= x - y", true}, {"x - y < 3", true}, {"b", false}, {"x >= 2", true}, {"true", false}, {"3 > x", true}, {"i + 1 < y - x", true}};
+struct Leaf { const char* text; bool clock; bool nonconvex = false; };
+static const Leaf LEAVES[] = {{"i < 1", false}, {"x < 5", true}, {"2 <= x - y", true}, {"x - y < 3", true}, {"b", false}, {"x >= 2", true}, {"true", false}, {"3 > x", true}, {"i + 1 < y - x", true}, {"x != y", true, true}, {"3 != x", true, true}};
 static int NLEAF = 3;
 
 struct F { Op op; int leaf; const F* a; const F* b; };
@@ -35,7 +35,7 @@ static bool has_clock(const F* f)
 static bool convex(const F* f)
 {
     switch (f->op) {
-    case LEAF: return true;
+    case LEAF: return !LEAVES[f->leaf].nonconvex;   // an inequality atom is itself the disjunction of < and >
     case AND_: return convex(f->a) && convex(f->b);
     case FORALL_: return convex(f->a);
     case OR_:
@@ -53,7 +53,7 @@ static bool convex(const F* f)
 }
 static bool pure_conjunction(const F* f)
 {
-    if (f->op == LEAF) return true;
+    if (f->op == LEAF) return !LEAVES[f->leaf].nonconvex;
     return f->op == AND_ && pure_conjunction(f->a) && pure_conjunction(f->b);
 }
 
@@ -118,12 +118,40 @@ extern "C" void harness_convex_d2()  /* vf: tier=quick bounds=formula_depth<=2:r
     run(2, false, 3);
 }
 
-extern "C" void harness_convex_d2_wide()  /* vf: tier=thorough bounds=formula_depth<=2:root_over_(depth<=1_subformula,leaf)_either_order_or_unary_root;9_leaves(int_pred,clock_bound,clock_diff_bound_with_the_bound_on_either_side,bool,lower_clock_bound,true);9_connectives;guard_and_invariant time_limit=3300 */
+extern "C" void harness_convex_d2_wide()  /* vf: tier=thorough bounds=formula_depth<=2:root_over_(depth<=1_subformula,leaf)_either_order_or_unary_root;11_leaves(int_pred,clock_bound,clock_diff_bound_with_the_bound_on_either_side,bool,lower_clock_bound,true,clock!=clock,int!=clock);9_connectives;guard_and_invariant time_limit=3300 */
 {
-    run(2, false, 9);
+    run(2, false, 11);
 }
 
 extern "C" void harness_convex_d2_full()  /* vf: tier=thorough bounds=all_formula_trees_of_depth<=2;3_leaves;9_connectives;guard_and_invariant time_limit=3300 */
 {
     run(2, true, 3);
+}
+
+// atomic clock comparisons that are not convex themselves: an inequality between clocks (or a clock / clock difference and an integer) is the
+// disjunction of < and >; wherever it stands, alone or under the connectives that preserve convexity, the model must be rejected
+extern "C" void harness_nonconvex_atoms()  /* vf: tier=quick bounds=8_inequality_atoms(clock!=clock,clock!=int,difference!=int,either_order,int_variable)_x_7_convexity-preserving_contexts_x_guard/invariant reach=end */
+{
+    static const char* ATOMS[] = {"x != y", "y != x", "x != 3", "3 != x", "x - y != 2", "2 != x - y", "x != i", "x - y != i"};
+    Model m;
+    int atom = vf_pick("!atom", 8), ctx = vf_pick("!context", 7), place = vf_pick("!place", 2);
+    std::string a = std::string("(") + ATOMS[atom] + ")", text;
+    switch (ctx) {
+    case 0: text = a; break;
+    case 1: text = a + " && (i < 1)"; break;
+    case 2: text = "(i < 1) && " + a; break;
+    case 3: text = a + " && (x < 5)"; break;
+    case 4: text = "(forall (k : int[0,1]) " + a + ")"; break;
+    case 5: text = "b || " + a; break;
+    default: text = "(x < 5) && (" + a + " && (y < 3))"; break;
+    }
+    std::string xta = "clock x, y; int i; bool b;\nprocess P() {\n state A";
+    if (place == 1) xta += " { " + text + " }";
+    xta += ", B;\n init A;\n trans A -> B {";
+    if (place == 0) xta += " guard " + text + ";";
+    xta += " };\n}\nsystem P;\n";
+    bool accepted = m.load(xta);
+    vf_note(text.c_str()); vf_notei("accepted", accepted);
+    vf_assert(!accepted, "nonconvex-atom-rejected");
+    vf_reach("end");
 }
